@@ -6,6 +6,7 @@
 #include "gen_enc.h"
 #include "gen_frames.h"
 #include "status_ops.h"
+#include "views.h"
 
 namespace vf
 {
@@ -89,6 +90,176 @@ inline void sinkPacket(const lib::Packet& p, OutputSink& out)
     }
 }
 
+// Typed accessors of a valid typed packet are outputs too: every scalar goes into the sink under its own name, every view as
+// (length, bytes) - the bytes only when the view lies inside the payload (C03 owns the out-of-bounds case; this sink must not
+// read outside itself).
+inline void sinkView(const lib::Payload& pl, const void* ptr, size_t len, OutputSink& out, const char* what)
+{
+    out.num<uint64_t>(len, what);
+    const uint8_t* raw = pl.getRawPayload();
+    const uint8_t* p = static_cast<const uint8_t*>(ptr);
+    if (p && len && p >= raw && p <= raw + pl.getLength() && len <= static_cast<size_t>(raw + pl.getLength() - p))
+        out.put(p, len, what);
+}
+inline void sinkTyped(const lib::Packet& pk, OutputSink& out)
+{
+    if (!pk.verifHasPayload() || !pk.isValid())
+        return;
+    const lib::Payload& pl = pk.getPayload();
+    uint8_t cls;
+    if (!classOfType(pl.getType().getType(), cls))
+        return;
+    switch (cls)
+    {
+        case pcCan:
+        case pcCanFd:
+        {
+            const auto& p = static_cast<const lib::CanPayloadBase&>(pl);
+            out.num(p.getFlags(), "can.flags");
+            out.num(p.getId(), "can.id");
+            out.num<uint8_t>(p.getRsvd(), "can.rsvd");
+            out.num<uint8_t>(p.getIde(), "can.ide");
+            out.num<uint8_t>(p.getCrcSupport(), "can.crcSupport");
+            out.num(p.getErrorPosition(), "can.errorPosition");
+            out.num(p.getDlc(), "can.dlc");
+            if (cls == pcCan)
+            {
+                out.num<uint8_t>(static_cast<const lib::CanPayload&>(pl).getRtr(), "can.rtr");
+                out.num(static_cast<const lib::CanPayload&>(pl).getCrc(), "can.crc");
+            }
+            else
+            {
+                const auto& fd = static_cast<const lib::CanFdPayload&>(pl);
+                out.num<uint8_t>(fd.getRrs(), "canfd.rrs");
+                out.num(fd.getCrc(), "canfd.crc");
+                out.num(fd.getSbc(), "canfd.sbc");
+                out.num<uint8_t>(fd.getSbcParity(), "canfd.sbcParity");
+                out.num<uint8_t>(fd.getSbcSupport(), "canfd.sbcSupport");
+            }
+            sinkView(pl, p.getData(), p.getDataLength(), out, "can.data");
+            break;
+        }
+        case pcLin:
+        {
+            const auto& p = static_cast<const lib::LinPayload&>(pl);
+            out.num(p.getFlags(), "lin.flags");
+            out.num(p.getLinId(), "lin.id");
+            out.num(p.getParityBits(), "lin.parity");
+            out.num(p.getChecksum(), "lin.checksum");
+            sinkView(pl, p.getData(), p.getDataLength(), out, "lin.data");
+            break;
+        }
+        case pcEthernet:
+        {
+            const auto& p = static_cast<const lib::EthernetPayload&>(pl);
+            out.num(p.getFlags(), "ethernet.flags");
+            sinkView(pl, p.getData(), p.getDataLength(), out, "ethernet.data");
+            break;
+        }
+        case pcAnalog:
+        {
+            const auto& p = static_cast<const lib::AnalogPayload&>(pl);
+            out.num(p.getFlags(), "analog.flags");
+            out.num<uint8_t>(static_cast<uint8_t>(p.getUnit()), "analog.unit");
+            out.num(p.getSampleInterval(), "analog.interval");
+            out.num(p.getSampleOffset(), "analog.offset");
+            out.num(p.getSampleScalar(), "analog.scalar");
+            size_t sample = p.getSampleDt() == lib::AnalogPayload::SampleDt::aInt16 ? 2 : 4;
+            sinkView(pl, p.getData(), p.getSamplesCount() * sample, out, "analog.samples");
+            break;
+        }
+        case pcCm:
+        {
+            const auto& p = static_cast<const lib::CaptureModulePayload&>(pl);
+            out.num(p.getUptime(), "cm.uptime");
+            out.num(p.getGmIdentity(), "cm.gmIdentity");
+            out.num(p.getGmClockQuality(), "cm.gmClockQuality");
+            out.num(p.getCurrentUtcOffset(), "cm.utcOffset");
+            out.num(p.getTimeSource(), "cm.timeSource");
+            out.num(p.getDomainNumber(), "cm.domainNumber");
+            out.num(p.getGptpFlags(), "cm.gptpFlags");
+            auto d = p.getDeviceDescription();
+            sinkView(pl, d.data(), d.size(), out, "cm.deviceDescription");
+            auto sn = p.getSerialNumber();
+            sinkView(pl, sn.data(), sn.size(), out, "cm.serialNumber");
+            auto h = p.getHardwareVersion();
+            sinkView(pl, h.data(), h.size(), out, "cm.hardwareVersion");
+            auto w = p.getSoftwareVersion();
+            sinkView(pl, w.data(), w.size(), out, "cm.softwareVersion");
+            sinkView(pl, p.getVendorData(), p.getVendorDataLength(), out, "cm.vendorData");
+            auto v = p.getVendorDataStringView();
+            sinkView(pl, v.data(), v.size(), out, "cm.vendorDataStringView");
+            break;
+        }
+        case pcIf:
+        {
+            const auto& p = static_cast<const lib::InterfacePayload&>(pl);
+            out.num(p.getInterfaceId(), "if.interfaceId");
+            out.num(p.getMsgTotalRx(), "if.msgTotalRx");
+            out.num(p.getMsgTotalTx(), "if.msgTotalTx");
+            out.num(p.getMsgDroppedRx(), "if.msgDroppedRx");
+            out.num(p.getMsgDroppedTx(), "if.msgDroppedTx");
+            out.num(p.getErrorsTotalRx(), "if.errorsTotalRx");
+            out.num(p.getErrorsTotalTx(), "if.errorsTotalTx");
+            out.num(p.getInterfaceType(), "if.interfaceType");
+            out.num<uint8_t>(static_cast<uint8_t>(p.getInterfaceStatus()), "if.interfaceStatus");
+            out.num(p.getFeatureSupportBitmask(), "if.featureSupportBitmask");
+            sinkView(pl, p.getStreamIds(), p.getStreamIdsCount(), out, "if.streamIds");
+            sinkView(pl, p.getVendorData(), p.getVendorDataLength(), out, "if.vendorData");
+            break;
+        }
+        default:
+            break;
+    }
+}
+
+// A frame of 1..3 unsegmented messages with typed payloads that the validators accept, laid out by the independent builders;
+// capture-module payloads also in the un-padded form the library's validator accepts (arbitrary, also odd, length prefixes and a
+// payload that ends right behind the last field).
+inline rc::Gen<FrameRecipe> genTypedFrame()
+{
+    return rc::gen::exec([]() {
+        FrameRecipe f;
+        f.kind = 0;
+        f.version = *rc::gen::element<uint8_t>(1, 2);
+        f.dev = *anyInt<uint16_t>();
+        f.stream = *anyInt<uint8_t>();
+        f.seq = *anyInt<uint16_t>();
+        PacketRecipe r;
+        r.kind = *rc::gen::element<uint8_t>(rkCan, rkCanFd, rkLin, rkEthernet, rkAnalog, rkCmStatus, rkCmStatus, rkIfStatus);
+        f.msgType = r.messageType();
+        int n = *range<int>(1, 3);
+        for (int i = 0; i < n; ++i)
+        {
+            r.seed = *rc::gen::arbitrary<uint32_t>();
+            r.len = *range<uint32_t>(0, std::min<uint32_t>(40, PacketRecipe::maxLen(r.kind)));
+            MsgRecipe m;
+            m.ptype = r.payloadTypeByte();
+            m.ts = *anyInt<uint64_t>();
+            m.idWord = *anyInt<uint32_t>();
+            m.flags = *rc::gen::element<uint8_t>(0, 0x03, 0x33);
+            m.useBytes = 1;
+            if (r.kind == rkCmStatus && *range<int>(0, 1) == 0)
+            {
+                Bytes b = fillBytes(r.seed, wire::kCmStatusHeader);
+                for (int k = 0; k < 5; ++k)
+                {
+                    uint16_t l = *range<uint16_t>(0, 7);
+                    b.push_back(0);
+                    b.push_back(static_cast<uint8_t>(l));
+                    Bytes field = fillBytes(r.seed + static_cast<uint32_t>(k) + 1, l);
+                    b.insert(b.end(), field.begin(), field.end());
+                }
+                m.bytes = b;
+            }
+            else
+                m.bytes = oracleBytes(r, deriveFields(r));
+            f.msgs.push_back(m);
+        }
+        return f;
+    });
+}
+
 inline lib::Payload buildByClass(const BuilderStep& s, lib::CanPayload& can, lib::CanFdPayload& canFd, lib::LinPayload& lin, lib::EthernetPayload& eth,
                                  lib::AnalogPayload& analog, lib::CaptureModulePayload& cm, lib::InterfacePayload& ifp)
 {
@@ -159,7 +330,10 @@ inline void runWorkload(const Workload& w, OutputSink& out)
                     out.put(f.data(), f.size(), "frame.bytes");
                     if (w.kind == 5)
                         for (const auto& p : dec.decode(f.data(), f.size()))
+                        {
                             sinkPacket(*p, out);
+                            sinkTyped(*p, out);
+                        }
                 }
             }
             break;
@@ -173,7 +347,10 @@ inline void runWorkload(const Workload& w, OutputSink& out)
                 auto got = decodeOwned(dec, b);
                 out.num<uint32_t>(static_cast<uint32_t>(got.size()), "decode.count");
                 for (const auto& p : got)
+                {
                     sinkPacket(*p, out);
+                    sinkTyped(*p, out);
+                }
             }
             break;
         }
@@ -189,7 +366,10 @@ inline void runWorkload(const Workload& w, OutputSink& out)
                 free(heap);
                 out.num<uint32_t>(static_cast<uint32_t>(got.size()), "tecmp.count");
                 for (const auto& p : got)
+                {
                     sinkPacket(*p, out);
+                    sinkTyped(*p, out);
+                }
             }
             break;
         }
@@ -287,6 +467,16 @@ inline rc::Gen<Workload> genWorkload(int tier)
                 HistoryGenParams p;
                 p.maxFrames = tier ? 40 : 20;
                 w.hist = *genFrameHistory(p);
+                // two thirds of the histories also hold frames with typed payloads the validators accept
+                if (*range<int>(0, 2) != 0)
+                {
+                    int k = *range<int>(1, 4);
+                    for (int i = 0; i < k; ++i)
+                    {
+                        size_t at = *range<size_t>(0, w.hist.frames.size());
+                        w.hist.frames.insert(w.hist.frames.begin() + static_cast<std::ptrdiff_t>(at), *genTypedFrame());
+                    }
+                }
                 break;
             }
             case 2:
